@@ -573,8 +573,11 @@ public:
                  (VD->getType()->isArrayType() &&
                   Ctx.getBaseElementType(VD->getType()).isConstQualified());
     G["tls"] = VD->getTLSKind() != VarDecl::TLS_None;
+    // spelled in a system header: the name itself, or (for names pasted
+    // together by a library's macro) the first token of the declaration
     G["sysspelled"] =
-        SM.isInSystemHeader(SM.getSpellingLoc(VD->getLocation()));
+        SM.isInSystemHeader(SM.getSpellingLoc(VD->getLocation())) ||
+        SM.isInSystemHeader(SM.getSpellingLoc(VD->getBeginLoc()));
     if (InFn)
       G["function"] = InFn->getNameAsString();
     if (auto *CAT = Ctx.getAsConstantArrayType(VD->getType()))
